@@ -10,6 +10,8 @@ pub const LINES: &[&str] = &[
     // lines that are blank only by Unicode standards (`str::trim` / `char::is_whitespace`): NBSP, em space, ideographic
     // space, vertical tab, NEL, line separator - alone or mixed with ASCII blanks
     "\u{a0}", " \u{2003}\t", "\u{3000}\u{3000}", "\u{b}", "\u{85} ", "\u{2028}",
+    // a lone carriage return INSIDE a line is an ordinary character of that line (`str::lines` breaks at \n and \r\n only)
+    "ab\rcd", "x=1\rx=2", "a\r",
 ];
 const DIRS: &[&str] = &["", "asc", "desc", "ASC", "Desc", "dEsC", "  "];
 const BAD_DIRS: &[&str] = &[" asc", "up", "ascending", "asc ", "a", "descc"];
@@ -23,15 +25,17 @@ const SORT_PATS: &[&str] = &[r"x=(?P<value>\d+)", r"\w+", r"(?P<value>[a-z]+)", 
 const BAD_PATS: &[&str] = &["(", "[a-", "(?P<value>", "*a"];
 const FORMATS: &[&str] = &["numeric", "Numeric", "NUMERIC", "lexicographic", "Lexicographic", "", " numeric "];
 const BAD_FORMATS: &[&str] = &["num", "numeric1", "alpha", "numericc"];
-const LINE_PATS: &[&str] = &[r"^[a-z]+$", r"\d", r"^x=\d+", r"^\S+$", r"b", r"^$", r"^\s", r"a|b", r" b", r"a ", r" "];
+const LINE_PATS: &[&str] = &[r"^[a-z]+$", r"\d", r"^x=\d+", r"^\S+$", r"b", r"^$", r"^\s", r"a|b", r" b", r"a ", r" ", r"^.+$", r"^ab$", r"^cd$", r"^\w+=\d$"];
 const UNIQ_PATS: &[&str] = &["", "", r"x=(?P<value>\d+)", r"^\w", r"(?P<value>[a-z]+)", r"\d+",
     r"x=(?P<value>\d+)|^[a-z0-9.]+", r"^\s*(?:x=(?P<value>\d+))?\S*",
     r"x=(?<value>\d+)", r"(?<value>[a-z]+)\d*", r"x=(?P<val>\d+)", r"x=(?P<value2>\d+) ?(?P<valu>\w*)",
-    r" (?P<value>\w+)", r"\w+ ", r" "];
+    r" (?P<value>\w+)", r"\w+ ", r" ",
+    // anchored at the end of the line (a line break must not be part of the line), and patterns that match the empty string
+    r"^\w+$", r"x=(?P<value>\d+)$", r"^\d*", r"(?P<value>\d*)$"];
 const OPS: &[&str] = &["<", "<=", "==", ">=", ">"];
 const BAD_COUNTS: &[&str] = &["", " ", "5", "=5", "=<5", "<= five", "<=", "< -1", "<18446744073709551616", "== 5 6", "!=3", "<=5.0", "≤5"];
 const SEVERITIES: &[&str] = &["error", "warning", "info", "hint", "Warning", "ERROR", "HiNt"];
-const BAD_SEVERITIES: &[&str] = &["", "warn", "fatal", " error", "errors"];
+const BAD_SEVERITIES: &[&str] = &["", "warn", "fatal", " error", "errors", "1", "2", "4", "0", "7", "42", "255", "007", "+3", "1.0", "error,warning", "e"];
 
 pub struct Lang {
     pub ext: &'static str,
